@@ -4,7 +4,9 @@ package handler
 // RecoverHandler -> MaxBytesHandler -> handler, composed by hand in the order
 // engine.bindRoute fixes (no breaker, metrics or log handlers), one fresh
 // composition per route and case. Same cases, interpreter and oracle as the
-// full-chain tier (c02_common_test.go). Nothing in this composition owns an
+// full-chain tier (c02_common_test.go); one case in six leaves RecoverHandler out
+// (a panic must then travel to the serving goroutine instead of killing the
+// process from the timeout guard's own goroutine). Nothing in this composition owns an
 // immortal goroutine, so a goroutine left behind when the case ends is a leak
 // verdict, and the race detector watches the window in which the handler
 // goroutine and the deadline branch run at the same virtual instant.
@@ -25,7 +27,9 @@ func c02BuildGuards(c c02Case, h http.HandlerFunc) (func(int, http.ResponseWrite
 	for i := range c.R {
 		var hd http.Handler = h
 		hd = MaxBytesHandler(int64(c.maxBytes(i)))(hd)
-		hd = RecoverHandler(hd)
+		if !c.NR {
+			hd = RecoverHandler(hd)
+		}
 		hd = TimeoutHandler(time.Duration(c.timeoutTicks(i)) * c02Tick)(hd)
 		hd = MaxConns(c.MC)(hd)
 		routes = append(routes, hd)
@@ -34,6 +38,6 @@ func c02BuildGuards(c c02Case, h http.HandlerFunc) (func(int, http.ResponseWrite
 }
 
 func TestVerif_C02_rest_guards_race(t *testing.T) {
-	kit.Run(t, "C02", "rest-guards-race", kit.Opts{Quick: 3000, Thorough: 48000}, c02Gen,
+	kit.Run(t, "C02", "rest-guards-race", kit.Opts{Quick: 3000, Thorough: 48000}, c02GenFor(true),
 		func(c c02Case) kit.Verdict { return c02Run(t, c, c02BuildGuards, false) })
 }
